@@ -402,8 +402,8 @@ def queued_events_first(ctx: Ctx, rs: RustProgram) -> None:
     second of two events emitted in the last batch is stranded once the task queue drains."""
     fn = rs.fn(DRV, "AsyncDriver::run_for")
     g = cfgmod.build_rs(fn.node, fn.qual)
-    pops = [c for c in walk(fn.body) if c.get("k") == "mcall" and c["m"] == "pop_front" and "events_queue" in expr_text(c["recv"])]
-    ctx.need(bool(pops), "AsyncDriver::run_for: events_queue.pop_front() not found")
+    pops = [c for c in walk(fn.body) if c.get("k") == "mcall" and (c["m"].startswith("pop") or c["m"] in ("remove", "swap_remove", "drain", "take")) and "events_queue" in expr_text(c["recv"])]
+    ctx.need(bool(pops), "AsyncDriver::run_for: no site that takes an event out of events_queue")
     uncond = 0
     for c in pops:
         node = g.node_of(c)
@@ -414,4 +414,4 @@ def queued_events_first(ctx: Ctx, rs: RustProgram) -> None:
         ctx.violation("C18.2/queued-events-first", key_of(fn.file, fn.qual, "queued events handed out only while tasks remain"),
                       "every events_queue.pop_front() of run_for is guarded by the task-loop condition: an event still queued when the last task finishes is never returned "
                       "(two tasks emitting in the same final cycle: the driver reports one event and loses the other)", fn.where)
-    ctx.instance("C18.2/queued-events-first", "events_queue.pop_front() sites of run_for; one is reached unconditionally at entry", len(pops), 2)
+    ctx.instance("C18.2/queued-events-first", "sites of run_for that take an event out of events_queue; one is reached unconditionally at entry", len(pops), 2)
